@@ -7,6 +7,7 @@ from lib import pipeline
 LEVEL = "proof"
 MODEL_FILES = ["Model/FullView.v"]
 THEOREMS = []
+EXTRA_PROPS = ["C06b"]
 STREAMS = [("C06", 3000, 100000)]
 SHARD = 3000
 RELEASE_TOO = True
@@ -256,6 +257,8 @@ def oracle(stream, header, ops, obs):
         if name == "consistent":
             f["flags"] = [l for l in g if "mismatch" in l]
             cls = check_view(f)
+            if cls == "view-edge-references-name-a-node-that-is-not-listed" and f["kind"] == 3:
+                cls = "matrixgraph-edge-to-an-absent-node"      # known finding, specific to MatrixGraph
             if cls:
                 return bad(k, cls)
             continue
